@@ -17,8 +17,10 @@
     | evm Keeper.hooks, epochs Keeper.hooks   | SetHooks in NewHaqq                         | constant of construction                    |
     | evm Keeper.tracer, ante MaxTxGasWanted, baseapp minGasPrices, invCheckPeriod, skipUpgradeHeights | app options / node config | node-local configuration, identical for both nodes of the comparison; not consensus input |
     | keepers, store keys, codecs, module manager, configurator, msg/query routers, IBC router, ante/post handler, upgrade handlers (hold a *copy* of the evm keeper taken at construction: its chain id is nil on every node) | NewHaqq | constants of construction |
-    | upgrade Keeper.downgradeVerified        | first BeginBlock after start                | a check against the db (panics on a wrong binary), no effect on results |
-    | capability Keeper memstore + capMap     | InitMemStore in the first BeginBlock        | rebuilt from the persistent capability store (SDK) |
+    | upgrade Keeper.downgradeVerified        | first BeginBlock after start                | a check against the db (panics on a wrong binary); its extra store reads are charged to the block context's gas meter: known finding K16 ([preante_gas_leak_breaks_restart_refuted]) |
+    | capability Keeper memstore + capMap     | InitMemStore in the first BeginBlock        | rebuilt from the persistent capability store (SDK); the rebuild is charged to the same meter (K16) |
+    | baseapp deliverState ctx gas meter      | new per block, fed by the begin blockers    | reported as GasUsed of a transaction that fails before the ante handler and added to the block gas meter (K16); repaired by running the begin blockers on a private meter ([preante_gas_fixed_restart_equiv]) |
+    | stored parameters (evm, feemarket, ...) | MsgUpdateParams / ParameterChangeProposal   | database, not memory: [pstep], [params_node_restart_equiv]; start-up code must not rewrite them ([latch_breaks_restart_refuted]) |
     | baseapp deliverState / checkState       | BeginBlock / Commit; Init() after load      | deliverState rebuilt from db at BeginBlock; checkState header is EMPTY between start and the first Commit (the driver reports what depends on it) |
     | transient stores (evm, feemarket, params)| reset at Commit                             | empty at every block boundary on both nodes |
     | tpsCounter                              | DeliverTx increments, goroutine logs        | never read by the state machine             |
@@ -128,7 +130,131 @@ Section Restart.
   Proof. reflexivity. Qed.
   Theorem restart_query : forall db m q, R m (rebuild db) -> query (restart (db, m)) q = query (db, m) q.
   Proof. intros db m q H. unfold restart; simpl. apply query_respects, R_sym, H. Qed.
+
+  (** the invariant travels along every run, whatever the restart points *)
+  Lemma run_invariant qs db m sch :
+    R m (rebuild db) ->
+    R (snd (fst (run qs (db, m) sch))) (rebuild (fst (fst (run qs (db, m) sch)))).
+  Proof.
+    revert db m. induction sch as [|[r b] sch IH]; intros db m H; simpl; [exact H|].
+    assert (Hrr : R (rebuild db) (rebuild db)) by (eapply R_trans; [apply R_sym; exact H|exact H]).
+    assert (E : exists m', (if r then restart (db, m) else (db, m)) = (db, m') /\ R m' (rebuild db)).
+    { destruct r; [exists (rebuild db)|exists m]; auto. }
+    destruct E as (m' & -> & G).
+    pose proof (step_preserves db m' b G) as P.
+    destruct (step (db, m') b) as [[db1 m1] res] eqn:S. simpl in P.
+    specialize (IH db1 m1 P).
+    destruct (run qs (db1, m1) sch) as [nf os]. simpl in *. exact IH.
+  Qed.
+
+  (** a node that has run any history with any restarts, is now stopped and
+      restarted, and may be restarted again at any later boundaries, is
+      observationally equal for ever after to the same node that keeps running *)
+  Theorem restarted_equal_for_ever_after :
+    forall qs db m (bs1 : list Block) (rs1 : list bool) (bs2 : list Block) (rs2 : list bool),
+      R m (rebuild db) ->
+      let n := fst (run qs (db, m) (schedule rs1 bs1)) in
+      info (restart n) = info n /\
+      (forall q, query (restart n) q = query n q) /\
+      snd (run qs (restart n) (schedule rs2 bs2)) = snd (run qs n (never bs2)) /\
+      fst (fst (run qs (restart n) (schedule rs2 bs2))) = fst (fst (run qs n (never bs2))).
+  Proof.
+    intros qs db m bs1 rs1 bs2 rs2 H n.
+    pose proof (run_invariant qs db m (schedule rs1 bs1) H) as Hn. fold n in Hn.
+    destruct n as [dbn mn]. simpl in Hn.
+    assert (Hrr : R (rebuild dbn) (rebuild dbn)) by (eapply R_trans; [apply R_sym; exact Hn|exact Hn]).
+    split; [reflexivity|]. split; [intros q; apply restart_query; exact Hn|].
+    unfold restart; simpl. apply run_related; [exact Hrr|exact Hn|].
+    unfold schedule, never. rewrite map_map. simpl. rewrite map_id.
+    assert (forall (l : list bool) (k : list Block), length k <= length l -> map snd (combine l k) = k) as Hc.
+    { intros l k. revert l. induction k as [|x k IHk]; intros l Hl; destruct l; simpl in *; try lia; [done|done|].
+      f_equal. apply IHk. lia. }
+    apply Hc. rewrite app_length, repeat_length. lia.
+  Qed.
 End Restart.
+
+(** * The obligation on the code, as definitions
+    [mem_is_function_of_db]: after every step the memory equals - on the part
+    the steps and queries read, i.e. up to R - what a restart would rebuild from
+    the database the step leaves.  [reads_mem_through]: a step reads memory only
+    up to R.  With R := "equal under [view]" the observable part is a projection. *)
+Definition mem_is_function_of_db {DB Mem Block Result : Type}
+    (rebuild : DB -> Mem) (step : DB * Mem -> Block -> (DB * Mem) * Result) (R : Mem -> Mem -> Prop) : Prop :=
+  forall db m b, R m (rebuild db) ->
+    R (snd (fst (step (db, m) b))) (rebuild (fst (fst (step (db, m) b)))).
+
+Definition reads_mem_through {DB Mem Block Result : Type}
+    (step : DB * Mem -> Block -> (DB * Mem) * Result) (R : Mem -> Mem -> Prop) : Prop :=
+  forall db m1 m2 b, R m1 m2 ->
+    fst (fst (step (db, m1) b)) = fst (fst (step (db, m2) b)) /\
+    snd (step (db, m1) b) = snd (step (db, m2) b) /\
+    R (snd (fst (step (db, m1) b))) (snd (fst (step (db, m2) b))).
+
+Definition query_reads_mem_through {DB Mem Q A : Type} (query : DB * Mem -> Q -> A) (R : Mem -> Mem -> Prop) : Prop :=
+  forall db m1 m2 q, R m1 m2 -> query (db, m1) q = query (db, m2) q.
+
+Definition observable_part {Mem V : Type} (view : Mem -> V) : Mem -> Mem -> Prop := fun a b => view a = view b.
+
+(** if every step preserves the invariant, a restarted node and a continuous
+    node are observationally equal for ever after: all histories, all restart points *)
+Theorem invariant_gives_restart_equiv :
+  forall (DB Mem Block Result Hash Q A : Type)
+         (rebuild : DB -> Mem) (step : DB * Mem -> Block -> (DB * Mem) * Result)
+         (apphash : DB -> Hash) (height : DB -> Z) (query : DB * Mem -> Q -> A) (R : Mem -> Mem -> Prop),
+    (forall a b, R a b -> R b a) -> (forall a b c, R a b -> R b c -> R a c) ->
+    reads_mem_through step R -> query_reads_mem_through query R ->
+    mem_is_function_of_db rebuild step R ->
+    forall qs db m (bs1 : list Block) (rs1 : list bool) (bs2 : list Block) (rs2 : list bool),
+      R m (rebuild db) ->
+      let go := run DB Mem Block Result Hash Q A rebuild step apphash height query qs in
+      let n := fst (go (db, m) (schedule Block rs1 bs1)) in
+      info DB Mem Hash apphash height (restart DB Mem rebuild n) = info DB Mem Hash apphash height n /\
+      (forall q, query (restart DB Mem rebuild n) q = query n q) /\
+      snd (go (restart DB Mem rebuild n) (schedule Block rs2 bs2)) = snd (go n (never Block bs2)) /\
+      fst (fst (go (restart DB Mem rebuild n) (schedule Block rs2 bs2))) = fst (fst (go n (never Block bs2))).
+Proof.
+  intros DB Mem Block Result Hash Q A rebuild step apphash height query R Hs Ht Hr Hq Hi.
+  exact (restarted_equal_for_ever_after DB Mem Block Result Hash Q A rebuild step apphash height query R Hs Ht Hr Hq Hi).
+Qed.
+
+(** the same with the observable part given as a projection of the memory *)
+Theorem invariant_on_observable_part_gives_restart_equiv :
+  forall (DB Mem Block Result Hash Q A V : Type) (view : Mem -> V)
+         (rebuild : DB -> Mem) (step : DB * Mem -> Block -> (DB * Mem) * Result)
+         (apphash : DB -> Hash) (height : DB -> Z) (query : DB * Mem -> Q -> A),
+    reads_mem_through step (observable_part view) -> query_reads_mem_through query (observable_part view) ->
+    mem_is_function_of_db rebuild step (observable_part view) ->
+    forall qs db m (bs : list Block) (rs : list bool),
+      view m = view (rebuild db) ->
+      snd (run DB Mem Block Result Hash Q A rebuild step apphash height query qs (db, m) (schedule Block rs bs))
+      = snd (run DB Mem Block Result Hash Q A rebuild step apphash height query qs (db, m) (never Block bs)) /\
+      fst (fst (run DB Mem Block Result Hash Q A rebuild step apphash height query qs (db, m) (schedule Block rs bs)))
+      = fst (fst (run DB Mem Block Result Hash Q A rebuild step apphash height query qs (db, m) (never Block bs))).
+Proof.
+  intros DB Mem Block Result Hash Q A V view rebuild step apphash height query Hr Hq Hi qs db m bs rs H.
+  apply (restart_equiv DB Mem Block Result Hash Q A rebuild step apphash height query (observable_part view)); auto.
+  - intros a b Hab. unfold observable_part in *. congruence.
+  - intros a b c Hab Hbc. unfold observable_part in *. congruence.
+Qed.
+
+(** any two restart schedules are interchangeable *)
+Theorem restart_points_interchangeable :
+  forall (DB Mem Block Result Hash Q A : Type)
+         (rebuild : DB -> Mem) (step : DB * Mem -> Block -> (DB * Mem) * Result)
+         (apphash : DB -> Hash) (height : DB -> Z) (query : DB * Mem -> Q -> A) (R : Mem -> Mem -> Prop),
+    (forall a b, R a b -> R b a) -> (forall a b c, R a b -> R b c -> R a c) ->
+    reads_mem_through step R -> query_reads_mem_through query R ->
+    mem_is_function_of_db rebuild step R ->
+    forall qs db m (bs : list Block) (rs rs' : list bool),
+      R m (rebuild db) ->
+      snd (run DB Mem Block Result Hash Q A rebuild step apphash height query qs (db, m) (schedule Block rs bs))
+      = snd (run DB Mem Block Result Hash Q A rebuild step apphash height query qs (db, m) (schedule Block rs' bs)).
+Proof.
+  intros DB Mem Block Result Hash Q A rebuild step apphash height query R Hs Ht Hr Hq Hi qs db m bs rs rs' H.
+  destruct (restart_equiv DB Mem Block Result Hash Q A rebuild step apphash height query R Hs Ht Hr Hq Hi qs db m bs rs H) as [E1 _].
+  destruct (restart_equiv DB Mem Block Result Hash Q A rebuild step apphash height query R Hs Ht Hr Hq Hi qs db m bs rs' H) as [E2 _].
+  congruence.
+Qed.
 
 (** * The Haqq node: chain id cache, precompile registry, tps counter *)
 Section Haqq.
@@ -285,36 +411,180 @@ Example haqq_instance_nonvacuous :
   length (snd (go (7%Z, hrebuild Z [1; 2]%N 7%Z) (never (hblock Z) bs))) = 3.
 Proof. vm_compute. split; reflexivity. Qed.
 
-(** * Correspondence with the real keeper fields
-    The driver records, for every lineage (continuous node, restarted node,
-    nodes opened on a copy of the database) and every block it executes: the
-    chain id cached in the EVM keeper before and after the block and the
-    keeper's registry (available precompile addresses) after the block.  The
-    model predicts them with [hstep] on a node whose transactions do nothing. *)
-Definition mem_case := (Z * list N * list (option Z * list (option Z * option Z * list N)))%type.
+(** * Persisted parameters: the database as key -> value, updates as writes
+    The part of the database the start-up code and the gated code paths look at:
+      key 1  x/evm ActivePrecompiles (addresses as numbers, in stored order)
+      key 2  x/feemarket (NoBaseFee, BaseFeeChangeDenominator, ElasticityMultiplier, EnableHeight,
+             MinGasPrice, MinGasMultiplier; decimals scaled by 10^18; the base fee itself is
+             rewritten by every BeginBlock and is not part of the projection)
+      key 3  x/evm ExtraEIPs          key 4  x/evm EnableCreate, EnableCall, AllowUnprotectedTxs
+    A parameter update is what MsgUpdateParams does: validate, then write. *)
+Definition kvdb := list (N * list Z).
+Fixpoint kv_get (d : kvdb) (k : N) : list Z :=
+  match d with
+  | [] => []
+  | (k', v) :: r => if (k' =? k)%N then v else kv_get r k
+  end.
+Fixpoint kv_put (k : N) (v : list Z) (d : kvdb) : kvdb :=
+  match d with
+  | [] => [(k, v)]
+  | (k', v') :: r => if (k' =? k)%N then (k, v) :: r else (k', v') :: kv_put k v r
+  end.
 
-Fixpoint mem_trace_ok (cid : Z) (m : hmem) (tr : list (option Z * option Z * list N)) : bool :=
+Definition K_ACTIVE : N := 1.
+Definition K_FM : N := 2.
+Definition K_EIPS : N := 3.
+Definition K_FLAGS : N := 4.
+
+Inductive pop :=
+| PEvm (active eips flags : list Z)     (* x/evm MsgUpdateParams: the complete requested parameters, projected *)
+| PFm (req : list Z).                   (* x/feemarket MsgUpdateParams: (nobase, denominator, elasticity, base fee, enable height, min gas price, min gas multiplier) *)
+
+Fixpoint strictly_sorted (l : list Z) : bool :=
+  match l with
+  | a :: (b :: _) as r => (a <? b)%Z && strictly_sorted r
+  | _ => true
+  end.
+Definition mem_Z (x : Z) (l : list Z) : bool := existsb (Z.eqb x) l.
+Fixpoint nodup_Z (l : list Z) : bool :=
+  match l with
+  | [] => true
+  | x :: r => negb (mem_Z x r) && nodup_Z r
+  end.
+Definition bool01 (x : Z) : bool := (x =? 0)%Z || (x =? 1)%Z.
+Definition valid_eips : list Z := [1344; 1884; 2200; 2929; 3198; 3529; 3855]%Z.
+(** Params.Validate of x/evm on the projected fields: ValidatePrecompiles (hex
+    addresses, no duplicate, sorted - for lower-case hex of equal length the
+    string order is the numeric order), validateEIPs (activateable, no duplicate) *)
+Definition evm_valid (active eips flags : list Z) : bool :=
+  strictly_sorted active && forallb (fun a => (0 <=? a)%Z && (a <? 2 ^ 160)%Z) active
+  && forallb (fun e => mem_Z e valid_eips) eips && nodup_Z eips
+  && (length flags =? 3)%nat && forallb bool01 flags.
+(** Params.Validate of x/feemarket *)
+Definition fm_valid (req : list Z) : bool :=
+  match req with
+  | [nb; den; el; base; en; mgp; mgm] =>
+      bool01 nb && (0 <? den)%Z && (0 <=? el)%Z && (0 <=? base)%Z && (0 <=? en)%Z
+      && (0 <=? mgp)%Z && (0 <=? mgm)%Z && (mgm <=? 10 ^ 18)%Z
+  | _ => false
+  end.
+Definition fm_stored (req : list Z) : list Z :=
+  match req with
+  | [nb; den; el; base; en; mgp; mgm] => [nb; den; el; en; mgp; mgm]
+  | _ => []
+  end.
+
+(** the handler: all-or-nothing *)
+Definition pwrite (d : kvdb) (o : pop) : kvdb * bool :=
+  match o with
+  | PEvm a e f => if evm_valid a e f then (kv_put K_FLAGS f (kv_put K_EIPS e (kv_put K_ACTIVE a d)), true) else (d, false)
+  | PFm r => if fm_valid r then (kv_put K_FM (fm_stored r) d, true) else (d, false)
+  end.
+
+Definition pproj := (list Z * list Z * list Z * list Z)%type.   (* active, fee market, eips, flags *)
+Definition proj_of (d : kvdb) : pproj := (kv_get d K_ACTIVE, kv_get d K_FM, kv_get d K_EIPS, kv_get d K_FLAGS).
+Definition db_of (p : pproj) : kvdb :=
+  let '(a, f, e, fl) := p in kv_put K_FLAGS fl (kv_put K_EIPS e (kv_put K_FM f (kv_put K_ACTIVE a []))).
+
+(** the Haqq node over this database: [hstep] with parameter updates as the
+    transactions (they read neither the chain id nor the registry) *)
+Definition pexec (d : kvdb) (_ : Z) (_ : list N) (o : pop) : kvdb * bool := pwrite d o.
+Definition pstep : kvdb * hmem -> hblock pop -> (kvdb * hmem) * hres bool := hstep kvdb pop bool pexec (fun d => d).
+
+(** * A once-per-process latch (the shape to exclude)
+    memory holds a flag [initialised], cleared by a restart; the block step, when
+    the flag is clear, first prunes from the stored active precompiles every
+    address without implementation, and writes the result.  [lstep false] is the
+    step without the latch.  Transactions: parameter updates, and EVM calls, which
+    fail (99) as long as an active address has no implementation. *)
+Record lmem := mk_lmem { initialised : bool }.
+Definition lrebuild (_ : kvdb) : lmem := mk_lmem false.
+Definition available : list Z := [256; 1024; 2048; 2049; 2050; 2052]%Z.
+Definition prune (d : kvdb) : kvdb :=
+  let a := kv_get d K_ACTIVE in
+  let a' := List.filter (fun x => mem_Z x available) a in
+  if (length a' =? length a)%nat then d else kv_put K_ACTIVE a' d.
+Inductive ltx := LUpdate (o : pop) | LEvmTx.
+Definition ltx_run (d : kvdb) (t : ltx) : kvdb * N :=
+  match t with
+  | LUpdate o => let '(d', ok) := pwrite d o in (d', if ok then 0%N else 1%N)
+  | LEvmTx => (d, if forallb (fun x => mem_Z x available) (kv_get d K_ACTIVE) then 0%N else 99%N)
+  end.
+Definition lstep (latch : bool) (n : kvdb * lmem) (b : list ltx) : (kvdb * lmem) * list N :=
+  let '(d, m) := n in
+  let d0 := if latch && negb (initialised m) then prune d else d in
+  let '(d1, rs) := fold_left (fun acc t => let '(d, rs) := acc in let '(d', r) := ltx_run d t in (d', rs ++ [r])) b (d0, []) in
+  ((d1, mk_lmem true), rs).
+
+(** * A once-per-process cost that leaks into results (known finding K16)
+    baseapp reports, for a transaction that fails before the ante handler, the
+    gas its BLOCK context has accumulated so far - the store reads of the begin
+    blockers - and adds it to the block gas meter; x/upgrade's and x/capability's
+    begin blockers do extra reads exactly once per process ([downgrade_verified],
+    the capability memory store).  x/feemarket stores
+    max(limited gas wanted, block gas meter) at EndBlock. *)
+Record gmem := mk_gmem { downgrade_verified : bool }.
+Definition grebuild (_ : Z) : gmem := mk_gmem false.
+Inductive gtx := GFailBeforeAnte | GOk (wanted used : Z).
+Definition begin_cost (m : gmem) : Z := if downgrade_verified m then 77465%Z else 105308%Z.
+(** database = the stored block gas; result per tx = gas used *)
+Definition gstep_with (cost : gmem -> Z) (n : Z * gmem) (b : list gtx) : (Z * gmem) * list Z :=
+  let '(_, m) := n in
+  let c := cost m in
+  let '(meter, wanted, rs) :=
+    fold_left (fun acc t => let '(meter, wanted, rs) := acc in
+                 match t with
+                 | GFailBeforeAnte => ((meter + c)%Z, wanted, rs ++ [c])
+                 | GOk w u => ((meter + u)%Z, (wanted + w)%Z, rs ++ [u])
+                 end) b (0%Z, 0%Z, []) in
+  ((Z.max (wanted / 2) meter, mk_gmem true), rs).
+Definition gstep := gstep_with begin_cost.
+(** the repair: the begin blockers run on a private gas meter, the block
+    context's own meter holds only what baseapp itself reads before the
+    transaction (the consensus parameters), whatever the process did before *)
+Definition gstep_fixed := gstep_with (fun _ => 3000%Z).
+
+(** * Correspondence with the real keeper fields and the stored parameters
+    The driver records, for every application instance of every lineage
+    (continuous node, nodes restarted on various schedules, nodes opened on a
+    copy of the database): the chain id cached in the EVM keeper when the
+    instance was constructed, the projection of the parameters it found in the
+    database, and per executed block: the cached chain id before and after, the
+    keeper's registry after the block, the parameter updates that reached a
+    handler (in order) and the projection of the stored parameters after the
+    block.  The model predicts all of them with [pstep]. *)
+Definition blockrec := (option Z * option Z * list N * list pop * pproj)%type.
+Definition mem_case := (Z * list N * list (option Z * pproj * list blockrec))%type.
+
+Definition list_Z_eqb (a b : list Z) : bool := if list_eq_dec Z.eq_dec a b then true else false.
+Definition pproj_eqb (p q : pproj) : bool :=
+  let '(a1, f1, e1, g1) := p in let '(a2, f2, e2, g2) := q in
+  list_Z_eqb a1 a2 && list_Z_eqb f1 f2 && list_Z_eqb e1 e2 && list_Z_eqb g1 g2.
+
+Fixpoint mem_trace_ok (cid : Z) (n : kvdb * hmem) (tr : list blockrec) : bool :=
   match tr with
   | [] => true
-  | (before, after, reg) :: tr' =>
-      let m' := snd (fst (hstep unit unit unit (fun d _ _ _ => (d, tt)) (fun d => d) (tt, m) (mk_hblock unit cid []))) in
-      match before, m_chain m with
+  | (before, after, reg, ops, pj) :: tr' =>
+      let n' := fst (pstep n (mk_hblock pop cid ops)) in
+      match before, m_chain (snd n) with
       | None, None => true
       | Some x, Some y => (x =? y)%Z
       | _, _ => false
       end
-      && match after, m_chain m' with
+      && match after, m_chain (snd n') with
          | Some x, Some y => (x =? y)%Z
          | _, _ => false
          end
-      && (if list_eq_dec N.eq_dec reg (m_reg m') then true else false)
-      && mem_trace_ok cid m' tr'
+      && (if list_eq_dec N.eq_dec reg (m_reg (snd n')) then true else false)
+      && pproj_eqb (proj_of (fst n')) pj
+      && mem_trace_ok cid n' tr'
   end.
 
 Definition mem_case_ok (c : mem_case) : bool :=
   let '(cid, static, lins) := c in
-  forallb (fun l : option Z * list (option Z * option Z * list N) =>
-             mem_trace_ok cid (mk_hmem (fst l) static 0) (snd l)) lins.
+  forallb (fun l : option Z * pproj * list blockrec =>
+             let '(start, pj0, tr) := l in
+             mem_trace_ok cid (db_of pj0, mk_hmem start static 0) tr) lins.
 
 Fixpoint mem_mismatches_from (i : nat) (cs : list mem_case) : list nat :=
   match cs with
@@ -322,3 +592,244 @@ Fixpoint mem_mismatches_from (i : nat) (cs : list mem_case) : list nat :=
   | c :: r => if mem_case_ok c then mem_mismatches_from (S i) r else i :: mem_mismatches_from (S i) r
   end.
 Definition mem_mismatches (cs : list mem_case) : list nat := mem_mismatches_from 0 cs.
+
+(** * Theorems about the persisted parameters *)
+Lemma kv_get_put_eq k v d : kv_get (kv_put k v d) k = v.
+Proof.
+  induction d as [|[k' v'] r IH]; simpl.
+  - by rewrite N.eqb_refl.
+  - destruct (k' =? k)%N eqn:E; simpl; [by rewrite N.eqb_refl|]. by rewrite E.
+Qed.
+
+Lemma kv_get_put_ne k k' v d : k <> k' -> kv_get (kv_put k v d) k' = kv_get d k'.
+Proof.
+  intros Hne. induction d as [|[k0 v0] r IH]; simpl.
+  - destruct (k =? k')%N eqn:E; [apply N.eqb_eq in E; contradiction|done].
+  - destruct (k0 =? k)%N eqn:E; simpl.
+    + apply N.eqb_eq in E. subst k0.
+      destruct (k =? k')%N eqn:E2; [apply N.eqb_eq in E2; contradiction|done].
+    + destruct (k0 =? k')%N; [done|exact IH].
+Qed.
+
+(** a write to the database commutes with a restart exactly when the memory
+    rebuilt on start does not depend on the written key *)
+Definition put_node {Mem : Type} (k : N) (v : list Z) (n : kvdb * Mem) : kvdb * Mem := (kv_put k v (fst n), snd n).
+Definition rebuild_reads_only {Mem : Type} (rebuild : kvdb -> Mem) (reads : N -> Prop) : Prop :=
+  forall d d', (forall k, reads k -> kv_get d k = kv_get d' k) -> rebuild d = rebuild d'.
+
+Theorem kv_write_commutes_with_restart :
+  forall (Mem : Type) (rebuild : kvdb -> Mem) (reads : N -> Prop),
+    rebuild_reads_only rebuild reads ->
+    forall k v (n : kvdb * Mem), ~ reads k ->
+      restart kvdb Mem rebuild (put_node k v n) = put_node k v (restart kvdb Mem rebuild n).
+Proof.
+  intros Mem rebuild reads Hr k v [d m] Hk. unfold restart, put_node. simpl. f_equal.
+  apply Hr. intros k' Hk'. apply kv_get_put_ne. intros ->. contradiction.
+Qed.
+
+(** a parameter update (validate, then write keys 1-4) commutes with a restart
+    whenever start-up does not read the parameters *)
+Definition update_node {Mem : Type} (o : pop) (n : kvdb * Mem) : kvdb * Mem := (fst (pwrite (fst n) o), snd n).
+Definition is_param_key (k : N) : Prop := k = K_ACTIVE \/ k = K_FM \/ k = K_EIPS \/ k = K_FLAGS.
+
+Theorem param_update_commutes_with_restart :
+  forall (Mem : Type) (rebuild : kvdb -> Mem) (reads : N -> Prop),
+    rebuild_reads_only rebuild reads -> (forall k, reads k -> ~ is_param_key k) ->
+    forall (o : pop) (n : kvdb * Mem),
+      restart kvdb Mem rebuild (update_node o n) = update_node o (restart kvdb Mem rebuild n).
+Proof.
+  intros Mem rebuild reads Hr Hk o [d m]. unfold restart, update_node. simpl. f_equal.
+  apply Hr. intros k Hrk. pose proof (Hk k Hrk) as Hn. unfold is_param_key in Hn.
+  destruct o as [a e f|r]; simpl.
+  - destruct (evm_valid a e f); simpl; [|done].
+    rewrite !kv_get_put_ne; [done|intros <-; tauto..].
+  - destruct (fm_valid r); simpl; [|done].
+    rewrite kv_get_put_ne; [done|intros <-; tauto].
+Qed.
+
+(** Haqq: the memory built by app.NewHaqq does not read the database at all *)
+Theorem haqq_param_update_commutes_with_restart :
+  forall (static : list N) (o : pop) (n : kvdb * hmem),
+    restart kvdb hmem (hrebuild kvdb static) (update_node o n)
+    = update_node o (restart kvdb hmem (hrebuild kvdb static) n).
+Proof.
+  intros static o n.
+  apply (param_update_commutes_with_restart hmem (hrebuild kvdb static) (fun _ => False)).
+  - intros d d' _. reflexivity.
+  - intros k [].
+Qed.
+
+(** a whole block of parameter updates: executing it after a restart, or
+    restarting after it, gives the same database and results, and memories
+    that no later step can tell apart *)
+Theorem param_block_commutes_with_restart :
+  forall (static : list N) (cid : Z) (d : kvdb) (m : hmem) (ops : list pop),
+    hR cid m (hrebuild kvdb static d) ->
+    let b := mk_hblock pop cid ops in
+    let rs := restart kvdb hmem (hrebuild kvdb static) in
+    fst (fst (pstep (rs (d, m)) b)) = fst (rs (fst (pstep (d, m) b))) /\
+    snd (pstep (rs (d, m)) b) = snd (pstep (d, m) b) /\
+    hR cid (snd (fst (pstep (rs (d, m)) b))) (snd (rs (fst (pstep (d, m) b)))).
+Proof.
+  intros static cid d m ops (Hreg & Hc & Hc') b rs. unfold rs, restart, pstep. cbn [fst snd].
+  rewrite (hstep_ok kvdb pop bool pexec (fun x => x) cid d m b Hc eq_refl).
+  rewrite (hstep_ok kvdb pop bool pexec (fun x => x) cid d (hrebuild kvdb static d) b) by (unfold compat; simpl; auto).
+  simpl in Hreg. rewrite Hreg. simpl.
+  destruct (exec_all kvdb pop bool pexec d cid static ops) as [d' rs']. simpl.
+  repeat split; unfold compat; simpl; auto.
+Qed.
+
+(** restarts are invisible on the parameters: all histories of parameter
+    updates, all restart points, the stored value of every key after every block *)
+Theorem params_node_restart_equiv :
+  forall (static : list N) (cid : Z) (qs : list N) (d : kvdb) (m : hmem) (bs : list (hblock pop)) (rs : list bool),
+    Forall (fun b => b_chain pop b = cid) bs -> hR cid m (hrebuild kvdb static d) ->
+    let go := run kvdb hmem (hblock pop) (hres bool) kvdb N (list Z) (hrebuild kvdb static) pstep
+                  (fun x => x) (fun _ => 0%Z) (fun n k => kv_get (fst n) k) qs in
+    snd (go (d, m) (schedule (hblock pop) rs bs)) = snd (go (d, m) (never (hblock pop) bs)).
+Proof.
+  intros static cid qs d m bs rs Hb Hm go. unfold go, pstep.
+  apply (haqq_restart_equiv kvdb pop bool pexec (fun x => x) static cid kvdb N (list Z)); auto.
+Qed.
+
+(** * The latch: refutation and impossibility *)
+Definition lrun (latch : bool) :=
+  run kvdb lmem (list ltx) (list N) kvdb N (list Z) lrebuild (lstep latch)
+      (fun d => d) (fun _ => 0%Z) (fun n k => kv_get (fst n) k) [K_ACTIVE].
+Definition genesis_pproj : pproj := (available, [0; 8; 2; 0; 0; 500000000000000000]%Z, [3855]%Z, [1; 1; 0]%Z).
+Definition with_0x803 : list Z := [256; 1024; 2048; 2049; 2050; 2051; 2052]%Z.
+Definition witness_b1 : list ltx := [LUpdate (PEvm with_0x803 [3855]%Z [1; 1; 0]%Z)].
+Definition witness_b2 : list ltx := [LEvmTx].
+Definition results_and_active (os : list (list N * (Z * kvdb) * list (list Z))) : list (list N * list (list Z)) :=
+  map (fun o => (fst (fst o), snd o)) os.
+
+(** block 1 activates the unimplemented precompile 0x..0803, block 2 carries one
+    EVM transaction.  The node that never stopped fails the transaction (99) and
+    keeps the address; the node restarted between the two blocks prunes it,
+    executes the transaction (0) and ends with another database. *)
+Example latch_breaks_restart_refuted :
+  let n0 : kvdb * lmem := (db_of genesis_pproj, mk_lmem true) in
+  results_and_active (snd (lrun true n0 [(false, witness_b1); (false, witness_b2)]))
+    = [([0%N], [with_0x803]); ([99%N], [with_0x803])] /\
+  results_and_active (snd (lrun true n0 [(false, witness_b1); (true, witness_b2)]))
+    = [([0%N], [with_0x803]); ([0%N], [available])] /\
+  fst (fst (lrun true n0 [(false, witness_b1); (false, witness_b2)]))
+    <> fst (fst (lrun true n0 [(false, witness_b1); (true, witness_b2)])) /\
+  (* the same history without the latch: the restart is invisible *)
+  snd (lrun false n0 [(false, witness_b1); (true, witness_b2)]) = snd (lrun false n0 [(false, witness_b1); (false, witness_b2)]).
+Proof. vm_compute. repeat split; try reflexivity. discriminate. Qed.
+
+(** the latch violates the obligation on the part of memory it reads ... *)
+Theorem latch_violates_mem_is_function_of_db :
+  ~ mem_is_function_of_db lrebuild (lstep true) (observable_part initialised).
+Proof.
+  intros H. specialize (H [] (mk_lmem false) [] eq_refl). vm_compute in H. discriminate.
+Qed.
+
+(** ... and no choice of "observable part" repairs it: under every relation
+    through which this step reads memory, the obligation fails *)
+Theorem latch_admits_no_relation :
+  forall R : lmem -> lmem -> Prop,
+    reads_mem_through (lstep true) R ->
+    R (mk_lmem false) (mk_lmem false) ->
+    ~ mem_is_function_of_db lrebuild (lstep true) R.
+Proof.
+  intros R Hr H0 Hi.
+  set (dw := kv_put K_ACTIVE with_0x803 []).
+  pose proof (Hi dw (mk_lmem false) [] H0) as H1.
+  assert (E : snd (fst (lstep true (dw, mk_lmem false) [])) = mk_lmem true) by reflexivity.
+  rewrite E in H1. unfold lrebuild in H1.
+  destruct (Hr dw (mk_lmem true) (mk_lmem false) [] H1) as (Hd & _).
+  vm_compute in Hd. discriminate.
+Qed.
+
+(** the step without the latch does not read memory: the obligation holds with
+    the empty observable part, hence restarts are invisible for all histories *)
+Theorem unlatched_step_satisfies_obligation :
+  reads_mem_through (lstep false) (fun _ _ => True) /\
+  mem_is_function_of_db lrebuild (lstep false) (fun _ _ => True).
+Proof.
+  split; [|intros d m b _; exact I].
+  intros d m1 m2 b _. unfold lstep. simpl.
+  destruct (fold_left _ b (d, [])) as [d1 rs]. simpl. auto.
+Qed.
+
+Theorem unlatched_restart_equiv :
+  forall qs d m (bs : list (list ltx)) (rs : list bool),
+    let go := run kvdb lmem (list ltx) (list N) kvdb N (list Z) lrebuild (lstep false)
+                  (fun x => x) (fun _ => 0%Z) (fun n k => kv_get (fst n) k) qs in
+    snd (go (d, m) (schedule (list ltx) rs bs)) = snd (go (d, m) (never (list ltx) bs)).
+Proof.
+  intros qs d m bs rs go. unfold go.
+  destruct unlatched_step_satisfies_obligation as [Hr Hi].
+  apply (restart_equiv kvdb lmem (list ltx) (list N) kvdb N (list Z) lrebuild (lstep false)
+           (fun x => x) (fun _ => 0%Z) (fun n k => kv_get (fst n) k) (fun _ _ => True)); auto.
+Qed.
+
+(** * K16: the once-per-process begin-block cost leaks into results *)
+Definition grun :=
+  run Z gmem (list gtx) (list Z) Z unit unit grebuild gstep (fun d => d) (fun _ => 0%Z) (fun _ _ => tt) [].
+
+(** [any block]; [a transaction that fails before the ante handler]: the node
+    that never stopped reports 77465 gas and stores it as the block gas; the node
+    restarted between the blocks reports and stores 105308.  With a transaction
+    whose limited gas wanted dominates the block meter only the reported gas differs. *)
+Example preante_gas_leak_breaks_restart_refuted :
+  let n0 : Z * gmem := (0%Z, mk_gmem true) in
+  map (fun o => (fst (fst o), snd (snd (fst o)))) (snd (grun n0 [(false, []); (false, [GFailBeforeAnte])]))
+    = [([], 0%Z); ([77465%Z], 77465%Z)] /\
+  map (fun o => (fst (fst o), snd (snd (fst o)))) (snd (grun n0 [(false, []); (true, [GFailBeforeAnte])]))
+    = [([], 0%Z); ([105308%Z], 105308%Z)] /\
+  map (fun o => (fst (fst o), snd (snd (fst o)))) (snd (grun n0 [(false, []); (false, [GOk 1000000 21000; GFailBeforeAnte])]))
+    = [([], 0%Z); ([21000%Z; 77465%Z], 500000%Z)] /\
+  map (fun o => (fst (fst o), snd (snd (fst o)))) (snd (grun n0 [(false, []); (true, [GOk 1000000 21000; GFailBeforeAnte])]))
+    = [([], 0%Z); ([21000%Z; 105308%Z], 500000%Z)].
+Proof. vm_compute. repeat split; reflexivity. Qed.
+
+Theorem gas_latch_admits_no_relation :
+  forall R : gmem -> gmem -> Prop,
+    reads_mem_through gstep R ->
+    R (mk_gmem false) (mk_gmem false) ->
+    ~ mem_is_function_of_db grebuild gstep R.
+Proof.
+  intros R Hr H0 Hi.
+  pose proof (Hi 0%Z (mk_gmem false) [] H0) as H1.
+  assert (E : snd (fst (gstep (0%Z, mk_gmem false) [])) = mk_gmem true) by reflexivity.
+  rewrite E in H1. unfold grebuild in H1.
+  destruct (Hr 0%Z (mk_gmem true) (mk_gmem false) [GFailBeforeAnte] H1) as (Hd & _).
+  vm_compute in Hd. discriminate.
+Qed.
+
+(** non-vacuity of [params_node_restart_equiv] and of the correspondence check:
+    the witness history on the faithful model - the restarted node keeps 0x..0803 *)
+Example params_node_nonvacuous :
+  let static := [256; 1024; 2048; 2049; 2050; 2052]%N in
+  let go := run kvdb hmem (hblock pop) (hres bool) kvdb N (list Z) (hrebuild kvdb static) pstep
+                (fun x => x) (fun _ => 0%Z) (fun n k => kv_get (fst n) k) [K_ACTIVE] in
+  let bs := [mk_hblock pop 11235 [PEvm with_0x803 [3855]%Z [1; 1; 0]%Z]; mk_hblock pop 11235 []; mk_hblock pop 11235 [PFm [0; 0; 2; 7; 0; 0; 0]%Z]] in
+  let n0 := (db_of genesis_pproj, hrebuild kvdb static (db_of genesis_pproj)) in
+  snd (go n0 (schedule (hblock pop) [false; true; true] bs)) = snd (go n0 (never (hblock pop) bs)) /\
+  map snd (snd (go n0 (never (hblock pop) bs))) = [[with_0x803]; [with_0x803]; [with_0x803]] /\
+  map (fun o => fst (fst o)) (snd (go n0 (never (hblock pop) bs))) = [Done bool [true]; Done bool []; Done bool [false]].
+Proof. vm_compute. repeat split; reflexivity. Qed.
+
+(** the repaired step does not read memory: restarts are invisible again, for
+    all histories (transactions failing before the ante handler included) *)
+Theorem preante_gas_fixed_restart_equiv :
+  forall d m (bs : list (list gtx)) (rs : list bool),
+    let go := run Z gmem (list gtx) (list Z) Z unit unit grebuild gstep_fixed (fun x => x) (fun _ => 0%Z) (fun _ _ => tt) [] in
+    snd (go (d, m) (schedule (list gtx) rs bs)) = snd (go (d, m) (never (list gtx) bs)) /\
+    fst (fst (go (d, m) (schedule (list gtx) rs bs))) = fst (fst (go (d, m) (never (list gtx) bs))).
+Proof.
+  intros d m bs rs go. unfold go.
+  apply (restart_equiv Z gmem (list gtx) (list Z) Z unit unit grebuild gstep_fixed
+           (fun x => x) (fun _ => 0%Z) (fun _ _ => tt) (fun _ _ => True)); auto.
+Qed.
+
+Example preante_gas_fixed_nonvacuous :
+  let go := run Z gmem (list gtx) (list Z) Z unit unit grebuild gstep_fixed (fun x => x) (fun _ => 0%Z) (fun _ _ => tt) [] in
+  map (fun o => (fst (fst o), snd (snd (fst o)))) (snd (go (0%Z, mk_gmem true) [(false, []); (true, [GFailBeforeAnte])]))
+    = [([], 0%Z); ([3000%Z], 3000%Z)] /\
+  map (fun o => (fst (fst o), snd (snd (fst o)))) (snd (go (0%Z, mk_gmem true) [(false, []); (false, [GFailBeforeAnte])]))
+    = [([], 0%Z); ([3000%Z], 3000%Z)].
+Proof. vm_compute. split; reflexivity. Qed.
